@@ -1,7 +1,7 @@
 CONSTANTS
   AlphaOf <- FullAlpha
   MaxLenOf <- Len6
-  DelimSet <- AllDelims
+  DelimSet <- FullDelims
 INIT Init
 NEXT Next
 INVARIANTS InvPartition
